@@ -57,8 +57,15 @@ def loopAssign {α β : Type} (f : Nat → β → α → α) : List Nat → Nat 
   | label :: rest, i, res, labs, xs => loopAssign f rest (i + 1) (assignMask (f i) label res labs xs) labs xs
 
 /-- `HeterogeneousLinearModel.__call__`: `result = zeros; for l_counter, label: result[labels == label] = (s*img + o)[…]` -/
-def hetCall (s o : List Rat) (labs : List Nat) (xs : List Rat) : List Rat :=
-  loopAssign (fun i x _ => linF (listGetD s i 0) (listGetD o i 0) x) (uniqSorted labs) 0 (xs.map fun _ => 0) labs xs
+def hetCall (uniq : List Nat) (s o : List Rat) (labs : List Nat) (xs : List Rat) : List Rat :=
+  loopAssign (fun i x _ => linF (listGetD s i 0) (listGetD o i 0) x) uniq 0 (xs.map fun _ => 0) labs xs
+
+/-- the whole `HeterogeneousLinearModel.__call__` on a signal of shape `H × W`: the loop enumerates the unique labels
+of the ORIGINAL label map (`self.unique_labels`, fixed at construction) and masks on the label map in force
+(`cached_labels` = the original or its nearest-neighbour resize) — a label that the resize drops keeps its
+position, so the remaining labels keep THEIR scaling / offset -/
+def hetCallResized (dev : Dev) (orig : List (List Nat)) (s o : List Rat) (H W : Nat) (xs : List Rat) : List Rat :=
+  hetCall (uniqSorted orig.flatten) s o (labelsFor dev orig H W).flatten xs
 
 /-- `HeterogeneousModel.__call__`: `output = zeros; output[mask_i] = model_i(signal[mask_i])` -/
 def wrapCall (ms : List M) (labs : List Nat) (xs : List Rat) : List Rat :=
@@ -74,7 +81,7 @@ def wrapCallG {α β : Type} (zero : α) (g : Nat → β → α) (labs : List Na
 /-- one model of a `CombinedModel` on the whole signal -/
 def M.call (m : M) (labs : List Nat) (xs : List Rat) : List Rat :=
   match m with
-  | .het _ s o => hetCall s o labs xs
+  | .het _ s o => hetCall (uniqSorted labs) s o labs xs
   | m => xs.map fun x => m.applyPix ⟨0, x⟩
 
 /-- `CombinedModel.__call__` with the element type of the result -/
@@ -103,5 +110,37 @@ def thrFinish (returnFloat : Bool) (mask : Option (List Bool)) (tm : List Bool) 
   match mask with
   | none => (if returnFloat then .f32 else .bool, tm)
   | some m => (.bool, List.zipWith (· && ·) tm m)
+
+end Darsia.Sig
+
+namespace Darsia.Sig
+
+/-! ### `CombinedModel.__call__(img, *args)`: sub-models whose `__call__` takes further positional arguments -/
+
+/-- a sub-model of a `CombinedModel`: one of the parameter models (`__call__(self, img)`), or a
+`StaticThresholdModel` (`__call__(self, img, mask=None)`) -/
+inductive Stage
+  | model (m : M)
+  | thrHom (lo : Rat) (hi : Option Rat) (rf : Bool)
+  | thrHet (lo : List Rat) (hi : Option (List Rat)) (rf : Bool)
+  deriving Repr
+
+/-- `model.__call__.__code__.co_argcount − 2`: how many of the extra arguments the sub-model is handed -/
+def Stage.extraArity : Stage → Nat
+  | .model _ => 0
+  | _ => 1
+
+def boolVals (r : DType × List Bool) : DType × List Rat := (r.1, r.2.map fun b => if b then 1 else 0)
+
+/-- one sub-model with the extra arguments it is handed (`model(result)` or `model(result, *args[:arity])`) -/
+def Stage.call (st : Stage) (labs : List Nat) (given : List (List Bool)) (d : DType) (xs : List Rat) : DType × List Rat :=
+  match st with
+  | .model m => (m.outDType d, m.call labs xs)
+  | .thrHom lo hi rf => boolVals (thrFinish rf given.head? (thrHomCall lo hi xs))
+  | .thrHet lo hi rf => boolVals (thrFinish rf given.head? (thrHetCall lo hi labs xs))
+
+/-- `CombinedModel.__call__(img, *args)`: every sub-model gets the running result and the first `arity` extra arguments -/
+def callStages (sts : List Stage) (labs : List Nat) (args : List (List Bool)) (d : DType) (xs : List Rat) : DType × List Rat :=
+  sts.foldl (fun acc st => st.call labs (args.take st.extraArity) acc.1 acc.2) (d, xs)
 
 end Darsia.Sig
